@@ -87,6 +87,16 @@ impl Clone for GroupExporterSecret {
     #[verifier::external_body]
     fn clone(&self) -> (r: Self) ensures r == *self { unimplemented!() }
 }
+impl PartialEq for GroupState { #[verifier::external_body] fn eq(&self, other: &Self) -> (r: bool) { unimplemented!() } }
+impl vstd::std_specs::cmp::PartialEqSpecImpl for GroupState {
+    open spec fn obeys_eq_spec() -> bool { true }
+    open spec fn eq_spec(&self, other: &Self) -> bool { *self == *other }
+}
+impl PartialEq for MessageState { #[verifier::external_body] fn eq(&self, other: &Self) -> (r: bool) { unimplemented!() } }
+impl vstd::std_specs::cmp::PartialEqSpecImpl for MessageState {
+    open spec fn obeys_eq_spec() -> bool { true }
+    open spec fn eq_spec(&self, other: &Self) -> bool { *self == *other }
+}
 impl PartialEq for ProcessedMessageState {
     #[verifier::external_body]
     fn eq(&self, other: &Self) -> (r: bool) { unimplemented!() }
